@@ -1,8 +1,8 @@
-\* Model checking of the contract on a transactional store, Restamp = FALSE: 3 foreign keys x 3 primary keys, one of each with a "/" inside.  VIEW hides hist.
+\* Model checking of the contract on a transactional store, Restamp = FALSE: 3 foreign keys x 4 primary keys, one of each with a "/" inside.  VIEW hides hist.
 SPECIFICATION Spec
 CONSTANTS
   FKs = {"f1", "f2", "fx"}
-  Rs = {"p1", "p2", "px"}
+  Rs = {"p1", "p2", "p3", "px"}
   Tied = FALSE
   Urm = FALSE
   BadFKs = {"fx"}
@@ -10,7 +10,7 @@ CONSTANTS
   Atomic = TRUE
   Restamp = FALSE
   WithAbort = TRUE
-  MaxOps = 8
+  MaxOps = 10
   Record = FALSE
   Probing = FALSE
   NoOpSteps = FALSE
